@@ -3,10 +3,11 @@
    from the operator sets BinOps / UnOps (one representative per precedence level in the quick tier,
    every operator in the thorough tier), all postfix forms, composite and function literals,
    parenthesised (conversion) types and a few statements; the state graph grows a tree by one level per
-   step.  Exports every tree with its source Print(t) (cases.ndjson) and the failures predicted by the
-   implementation-shaped String model (predicted.ndjson, diagnostic). *)
+   step.  Every state carries the tree t, its source src = Print(t) and the outcome pred that the
+   implementation-shaped String model predicts for it (diagnostic); the check exports the states
+   (TLC -dump) as the case set. *)
 EXTENDS ExprPrint, TLC, Json, SequencesExt
-CONSTANTS BinOps, UnOps, MaxDepth, StmtDepth
+CONSTANTS BinOps, UnOps, MaxDepth, StmtDepth, FullSib
 
 A == Id("a")
 TT == Id("T")
@@ -14,6 +15,7 @@ AssertTypes == {TT, Un("*", TT), SliceT(TT), MapT(TT, TT), ChanT("none", TT), Ch
                 ChanT("none", ChanT("recv", TT)), ChanT("send", ChanT("none", TT)), ChanT("none", ChanT("send", TT)),
                 ChanT("recv", ChanT("recv", TT)), FuncT(Nil), FuncT(TT)}
 ConvTypes == AssertTypes \ {TT}
+FewTypes == {TT, Un("*", TT), ChanT("recv", TT), FuncT(Nil)}           \* used around non-leaf operands
 CompTypes == {TT, SliceT(TT), MapT(TT, TT)}
 Atoms2 == {Comp(T, <<>>) : T \in CompTypes} \cup {FuncLit(FuncT(Nil)), FuncLit(FuncT(TT))}
 
@@ -41,45 +43,49 @@ Grow(x, S) ==
   \cup {Slicing(A, x, hi, Nil) : hi \in {Nil, A}} \cup {Slicing(A, lo, x, Nil) : lo \in {Nil, A}}
   \cup {Slicing(A, x, A, A), Slicing(A, Nil, x, A), Slicing(A, A, x, A), Slicing(A, Nil, A, x), Slicing(A, A, A, x)}
   \cup {Selector(x, "f")}
-  \cup {Assertion(x, T) : T \in AssertTypes}
-  \cup {Call(T, <<x>>, "false") : T \in ConvTypes}
+  \cup {Assertion(x, T) : T \in IF x = A THEN AssertTypes ELSE FewTypes}
+  \cup {Call(T, <<x>>, "false") : T \in IF x = A THEN ConvTypes ELSE FewTypes \ {TT}}
   \cup {Comp(T, <<x>>) : T \in CompTypes} \cup {Comp(SliceT(TT), <<x, A>>), Comp(SliceT(TT), <<A, x>>)}
 
 RECURSIVE Trees(_)
 Trees(d) == IF d = 1 THEN {A}
             ELSE LET P == Trees(d - 1) IN P \cup Atoms2 \cup UNION {Grow(x, P) : x \in P}
-Sib == Trees(MaxDepth - 1)
-ExprTrees == Trees(MaxDepth)
+\* siblings: every tree one level below the bound (FullSib), or one tree per operator/kind (quick tier)
+FewSib == {A} \cup {Bin(op, A, A) : op \in BinOps} \cup {Un(op, A) : op \in UnOps}
+          \cup {Index(A, A), Call(A, <<>>, "false"), Selector(A, "f"), Comp(TT, <<>>)}
+Sib == IF FullSib THEN Trees(MaxDepth - 1) ELSE FewSib
 
-AssignAll == AssignOps
 StmtsOf(x) ==
-  {Assign(op, <<A>>, <<x>>) : op \in AssignAll} \cup {Assign(op, <<x>>, <<>>) : op \in IncDec}
+  {Assign(op, <<A>>, <<x>>) : op \in AssignOps} \cup {Assign(op, <<x>>, <<>>) : op \in IncDec}
   \cup {Assign("=", <<x>>, <<A>>), Assign("=", <<A, x>>, <<A, A>>), Assign(":=", <<A, A>>, <<x, A>>)}
   \cup {VarD(<<A>>, Nil, <<x>>), VarD(<<A>>, TT, <<x>>), VarD(<<A, A>>, Nil, <<x, A>>), VarD(<<A, A>>, TT, <<A, x>>)}
   \cup {Send(x, A), Send(A, x), Defer(Call(x, <<>>, "false")), Go(Call(x, <<>>, "false")), Show(<<x>>), Show(<<x, A>>)}
 StmtAtoms == {VarD(<<A>>, T, <<>>) : T \in AssertTypes} \cup {VarD(<<A, A>>, TT, <<>>)}
-StmtTrees == StmtAtoms \cup UNION {StmtsOf(x) : x \in Trees(StmtDepth)}
-AllTrees == ExprTrees \cup StmtTrees
 
-VARIABLE t
-Init == t \in {A} \cup Atoms2 \cup StmtAtoms
-Next == /\ ~IsStmt(t)
-        /\ \/ Depth(t) < MaxDepth /\ t' \in Grow(t, Sib)
-           \/ Depth(t) <= StmtDepth /\ t' \in StmtsOf(t)
+\* What the implementation-shaped String model predicts for x.  Root causes are located as the judge
+\* locates them on the real code: the smallest sub-expressions whose own String form does not parse back
+\* to them (no failing sub-expression below), each described by where its re-parsed tree first differs.
+ImplOutcome(x) == LET y == ImplReparse(x) IN
+                  IF y = x THEN "ok" ELSE IF y = Err /\ Elided(x) THEN "elided" ELSE "violation"
+RECURSIVE MinFail(_)
+MinFail(x) ==
+  IF x.k = "nil" THEN {}
+  ELSE LET below == UNION {MinFail(x.c[i]) : i \in 1..Len(x.c)} IN
+       IF x.k = "list" \/ below # {} THEN below
+       ELSE IF ImplOutcome(x) # "violation" THEN {}
+       ELSE LET y == ImplReparse(x) IN
+            IF y = Err THEN {<<x.k, "error">>} ELSE LET d == Diverge(x, y, "-") IN {<<d.k1, d.k2>>}
+PredOf(x) == LET o == ImplOutcome(x) IN
+             [cls |-> o, pairs |-> IF o = "violation" THEN SetToSeq(MinFail(x)) ELSE <<>>]
+
+VARIABLES t, src, pred
+Carry == src' = Print(t') /\ pred' = PredOf(t')
+Init == t \in {A} \cup Atoms2 \cup StmtAtoms /\ src = Print(t) /\ pred = PredOf(t)
+GrowExpr == ~IsStmt(t) /\ Depth(t) < MaxDepth /\ t' \in Grow(t, Sib) /\ Carry
+MakeStmt == ~IsStmt(t) /\ Depth(t) <= StmtDepth /\ t' \in StmtsOf(t) /\ Carry
+Next == GrowExpr \/ MakeStmt
 
 \* the reference printer and parser are inverse on the whole space
-RefRoundTrip == RoundTrips(t)
-InSpace == t \in AllTrees /\ (IsStmt(t) \/ Depth(t) <= MaxDepth)
-
-TreeSeq == SetToSeq(AllTrees)
-Cases == [i \in 1..Len(TreeSeq) |-> [id |-> i, mode |-> IF IsStmt(TreeSeq[i]) THEN "stmt" ELSE "expr", t |-> TreeSeq[i], src |-> Print(TreeSeq[i])]]
-ASSUME ndJsonSerialize("cases.ndjson", Cases)
-
-\* predictions of the implementation-shaped model: distinct divergence signatures of Parse(IPr(t)) against t
-PredOf(x) == LET y == ImplReparse(x) IN
-             IF y = x THEN [cls |-> "ok", k1 |-> "-", k2 |-> "-"]
-             ELSE IF y = Err THEN [cls |-> IF Elided(x) THEN "elided" ELSE "violation", k1 |-> x.k, k2 |-> "error"]
-             ELSE LET d == Diverge(x, y, "-") IN [cls |-> "violation", k1 |-> d.k1, k2 |-> d.k2]
-Preds == {PredOf(TreeSeq[i]) : i \in 1..Len(TreeSeq)}
-ASSUME ndJsonSerialize("predicted.ndjson", SetToSeq(Preds))
+RefRoundTrip == Parse(IF IsStmt(t) THEN "stmt" ELSE "expr", src) = t
+InBound == IsStmt(t) \/ Depth(t) <= MaxDepth
 =============================================================================
